@@ -70,7 +70,7 @@ func c15Gen(t *rapid.T) interface{} {
 	}
 	nq := lib.IntN(t, 2, 6, "nqueries")
 	for i := 0; i < nq; i++ {
-		c.Queries = append(c.Queries, c15Query{Kind: lib.PickStr(t, []string{"file", "edited", "edited", "variant", "concat", "arbitrary", "inserted"}, "kind"),
+		c.Queries = append(c.Queries, c15Query{Kind: lib.PickStr(t, []string{"file", "edited", "edited", "variant", "concat", "arbitrary", "inserted", "typos", "typos"}, "kind"),
 			File: lib.IntN(t, 0, 40, "file"), File2: lib.IntN(t, 0, 40, "file2"), Arg: lib.IntN(t, 0, 100, "arg"), Edits: lib.Ints(t, 1, 8, 0, 3000, "edits")})
 	}
 	return c
@@ -139,6 +139,22 @@ func c15QueryText(q c15Query, files []licFile) (string, string) {
 			}
 		}
 		return "preface\n" + strings.Join(out, " ") + "\ntrailer\n", fmt.Sprintf("%s with %d x %d filler words inserted", f.Name, len(q.Edits), n)
+	case "typos":
+		// one letter changed in every k-th word: almost every run of three words is broken (little is left for the
+		// hash-based pre-selection) while the text stays close character by character
+		k := 3 + q.Arg%6
+		w := strings.Fields(f.Content)
+		for i := range w {
+			if i%k == k-1 && len(w[i]) >= 3 {
+				b := []byte(w[i])
+				b[len(b)/2] = 'q'
+				w[i] = string(b)
+			}
+			if (i+1)%11 == 0 {
+				w[i] += "\n"
+			}
+		}
+		return "preface\n" + strings.Join(w, " ") + "\ntrailer\n", fmt.Sprintf("%s with a typo in every %d. word", f.Name, k)
 	case "concat":
 		return f.Content + "\n\nunrelated words in between\n\n" + editWords(g.Content, q.Edits[:1]), "concat " + f.Name + " + " + g.Name
 	}
@@ -198,6 +214,10 @@ func c15Check(ci interface{}) lib.Outcome {
 	if err != nil {
 		return lib.Outcome{Skip: "reference-construction-failed: " + err.Error()}
 	}
+	b2, err := referenceLicenseAddValue(files, c.Thr)
+	if err != nil {
+		return lib.Outcome{Skip: "reference-construction-failed: " + err.Error()}
+	}
 	// every archived file is found under its own name at confidence 1.0
 	for _, f := range files {
 		m := a.NearestMatch(f.Content)
@@ -216,6 +236,9 @@ func c15Check(ci interface{}) lib.Outcome {
 			ra, rb := renderMatches(ma), renderMatches(mb)
 			if strings.Join(ra, " ") != strings.Join(rb, " ") {
 				return lib.Outcome{Violation: fmt.Sprintf("%s, query %d (%s), headers=%v: MultipleMatch differs\nfrom archive:   %v\nbuilt directly: %v", desc, qi, qdesc, hdr, ra, rb)}
+			}
+			if rb2 := renderMatches(b2.MultipleMatch(text, hdr)); strings.Join(ra, " ") != strings.Join(rb2, " ") {
+				return lib.Outcome{Violation: fmt.Sprintf("%s, query %d (%s), headers=%v: MultipleMatch differs\nfrom archive:            %v\nbuilt through AddValue:  %v", desc, qi, qdesc, hdr, ra, rb2)}
 			}
 			for _, m := range ma {
 				if !known[m.Name] {
@@ -243,7 +266,7 @@ func c15Check(ci interface{}) lib.Outcome {
 				return lib.Outcome{Violation: fmt.Sprintf("%s, query %d (%s): NearestMatch returned %q which is not in the archive", desc, qi, qdesc, na.Name)}
 			}
 		}
-		if q.Kind == "edited" || q.Kind == "concat" || q.Kind == "inserted" {
+		if q.Kind == "edited" || q.Kind == "concat" || q.Kind == "inserted" || q.Kind == "typos" {
 			edited = true
 		}
 	}
@@ -316,8 +339,41 @@ func bigLicenseFiles() []licFile {
 	return out
 }
 
+// c15HugeSynthetic: a license text of n pseudo-random vocabulary words, larger than any shipped license (the archive
+// entries of such a text exceed every size the shipped files exercise).
+func c15HugeSynthetic(n int) licFile {
+	var sb strings.Builder
+	x := uint32(12345 + n)
+	for i := 0; i < n; i++ {
+		x = x*1664525 + 1013904223
+		sb.WriteString(c15Vocab[int(x>>16)%len(c15Vocab)])
+		if i%50 == 49 {
+			fmt.Fprintf(&sb, " clause%d", i/50)
+		}
+		if (i+1)%12 == 0 {
+			sb.WriteByte('\n')
+		} else {
+			sb.WriteByte(' ')
+		}
+	}
+	return licFile{fmt.Sprintf("Huge-Synthetic-%d.txt", n), sb.String() + "\n"}
+}
+
+var c15HugeSizes = []int{9000, 20000, 45000}
+
 func c15BigEnum(yield func(interface{}) bool) {
 	shard, nshards := lib.EnvInt("VERIF_SHARD", 0), lib.EnvInt("VERIF_NSHARDS", 1)
+	for k := range c15HugeSizes {
+		if (k+3)%nshards != shard {
+			continue
+		}
+		if k == 2 && lib.Tier() != "thorough" {
+			continue
+		}
+		if !yield(&c15BigCase{File: -1 - k}) {
+			return
+		}
+	}
 	for i := range bigLicenseFiles() {
 		if i%nshards != shard {
 			continue
@@ -335,7 +391,13 @@ func c15BigCheck(ci interface{}) lib.Outcome {
 	c := ci.(*c15BigCase)
 	big := bigLicenseFiles()
 	small := smallLicenseFiles()
-	f := big[((c.File%len(big))+len(big))%len(big)]
+	var f licFile
+	if c.File < 0 {
+		f = c15HugeSynthetic(c15HugeSizes[(-c.File-1)%len(c15HugeSizes)])
+		c = &c15BigCase{File: -c.File}
+	} else {
+		f = big[((c.File%len(big))+len(big))%len(big)]
+	}
 	files := []licFile{small[c.File%len(small)], f, small[(c.File*7+3)%len(small)]}
 	if files[0].Name == files[2].Name {
 		files = files[:2]
@@ -368,7 +430,7 @@ func c15BigCheck(ci interface{}) lib.Outcome {
 
 func TestVerif_C15_BigFiles(t *testing.T) {
 	lib.Run(t, lib.Spec{ID: "C15", Part: "big-files",
-		Rule: "every license file larger than 8 KiB (a third of them plus all above 30 KB in quick), each archived together with two small files; queries: the file itself and the file with two words changed; MultipleMatch from the archive-loaded classifier == classifier built directly with fresh search sets",
+		Rule: "every license file larger than 8 KiB (a third of them plus all above 30 KB in quick), each archived together with two small files; plus synthetic license texts of 9000 / 20000 (/ 45000 in thorough) words, beyond every shipped size; queries: the file itself and the file with two words changed; MultipleMatch from the archive-loaded classifier == classifier built directly with fresh search sets",
 		New:  func() interface{} { return &c15BigCase{} }, Enum: c15BigEnum, Check: c15BigCheck, Exhaustive: true})
 }
 
